@@ -308,8 +308,8 @@ func Verif_C10_Clean() {
 	c10Clean(n, workers, fanout)
 }
 
-//verif:entry tier=quick,thorough steps=4000000 preempt=1,2 cover=sum,nooutput,void
-//verif:doc MapReduce / MapReduceVoid without faults, wider configurations under a preemption bound (1 quick / 2 thorough): 2 items x 2 workers with fan-out 1 (thorough: fan-out 1..2, and 3 items x 2 workers with fan-out 1); same assertions as Verif_C10_Clean.
+//verif:entry tier=quick,thorough steps=4000000 preempt=1 cover=sum,nooutput,void
+//verif:doc MapReduce / MapReduceVoid without faults, wider configurations, all schedules with at most 1 preemption: 2 items x 2 workers with fan-out 1 (thorough: fan-out 1..2, and 3 items x 2 workers with fan-out 1); same assertions as Verif_C10_Clean.
 func Verif_C10_CleanWide() {
 	n := 2
 	fanout := 1
@@ -323,6 +323,21 @@ func Verif_C10_CleanWide() {
 		}
 	}
 	c10Clean(n, 2, fanout)
+}
+
+//verif:entry tier=thorough steps=4000000 preempt=2 cover=sum
+//verif:doc MapReduce without faults, 2 items x 2 workers, fan-out 1, summing reducer: all schedules with at most 2 preemptions.
+func Verif_C10_CleanDeep() {
+	w := c10NewWorld(2, 2, 1)
+	res := &c10Result{}
+	res.val, res.err = MapReduce(w.generate(c10None, -1), w.mapper(c10None, -1), w.reducer(0, c10None, -1), WithWorkers(2))
+	res.returned = true
+	rt.Cover("sum")
+	rt.Assert(res.err == nil && res.val == w.wantSum(), "the call returns the reducer's single output")
+	for i := 0; i < 2; i++ {
+		rt.Assert(w.mapped[i] == 1 && w.got[i] == 1, "every item is mapped and reduced exactly once")
+	}
+	w.checkQuiescent(res)
 }
 
 func c10Faults(n, workers, fault int, stall bool) {
@@ -433,8 +448,8 @@ func Verif_C10_Faults() {
 	c10Faults(n, workers, fault, false)
 }
 
-//verif:entry tier=quick,thorough steps=4000000 preempt=1,2 cover=ctxerr,completed,stalled
-//verif:doc MapReduce / MapReduceVoid whose context is cancelled at an arbitrary scheduling point (a minimal context.Context implementation: Done channel + Err), 1 item x 1 worker (thorough: 1..2 items x 1..2 workers), optionally with a mapper that ignores the context and stalls until after the call has returned; preemption bound 1 (quick) / 2 (thorough): the call returns a context error or the complete result, never ErrReduceNoOutput/nil for a reduction that was cut short; it returns although the mapper stalls; no goroutine is left once the stalled mapper is released.
+//verif:entry tier=quick,thorough steps=4000000 preempt=1 cover=ctxerr,completed,stalled
+//verif:doc MapReduce / MapReduceVoid whose context is cancelled at an arbitrary scheduling point (a minimal context.Context implementation: Done channel + Err), 1 item x 1 worker (thorough: 1..2 items x 1..2 workers), optionally with a mapper that ignores the context and stalls until after the call has returned; all schedules with at most 1 preemption: the call returns a context error or the complete result, never ErrReduceNoOutput/nil for a reduction that was cut short; it returns although the mapper stalls; no goroutine is left once the stalled mapper is released.
 func Verif_C10_Context() {
 	n, workers := 1, 1
 	if rt.Tier() > 0 {
